@@ -634,7 +634,31 @@ def r11(ctx):
         raise AnalysisBroken('C16.R11: rebuilding of the circuit value around "#" not found in addDefaultFromFile')
 
 
+def r12(ctx):
+    ctx.rule('C16.R12', 'every accepted ACL line defines its user: in UserList::addFromFile the store of the level list '
+             '(m_userLevels[name] = ...) does not depend on the list itself - an empty list is an entry too: it makes the user '
+             'known (hasUser) and replaces the preset default levels, otherwise an ACL line without levels leaves the '
+             '--accesslevel default in force for that user or for everybody', minimum=1)
+    fb = ctx.fb
+    fn = fb.fn('ebusd::UserList::addFromFile')
+    ctx.touch(fn)
+    n = 0
+    for x in fn.all('CXXOperatorCallExpr'):
+        v = fn.nodes[x]
+        if v.get('op') != '=' or not v.get('args') or not fn.key(v['args'][0]).startswith('this.m_userLevels['):
+            continue
+        n += 1
+        val = fn.ref_decl(v['args'][1])
+        vn = val.split(':')[-1] if val else fn.key(v['args'][1])
+        import re
+        dep = sorted(k for k, p in set((a[0], a[1]) for a in fn.atoms(x)) if re.search(r'(?<![\w.])%s(?![\w])' % re.escape(vn), k))
+        ctx.ob('C16.R12', fn, x, not dep, 'store of the level list of an ACL line', 'depends on %s' % dep if dep else 'unconditional for an accepted line')
+    if n < 1:
+        raise AnalysisBroken('C16.R12: store to m_userLevels not found in UserList::addFromFile')
+
+
 def run(ctx):
+    r12(ctx)
     r11(ctx)
     r8(ctx)
     r1(ctx)
